@@ -170,7 +170,13 @@ func (t *treeConc) chanName(ch *channel) string {
 		p := t.i.prog.Fset.Position(ch.pos)
 		hint = fmt.Sprintf("%d_%s_%d", ch.id, strings.TrimSuffix(shortFile(p.Filename), ".go"), p.Line)
 	}
-	return t.nameOf("chan", ch, hint, func(n string) *ObjInfo { return &ObjInfo{Name: n, Kind: "chan", Cap: ch.cap, Width: 64} })
+	n := t.nameOf("chan", ch, hint, func(n string) *ObjInfo { return &ObjInfo{Name: n, Kind: "chan", Cap: ch.cap, Width: 64} })
+	if oi := t.objs[n]; oi != nil && oi.Cap != ch.cap {
+		// one object of the model, one capacity: a capacity that depends on a
+		// symbolic value would silently be modelled with the first one seen
+		unsupported("channel %s has capacity %d on one path and %d on another (make(chan T, n) with symbolic n)", n, oi.Cap, ch.cap)
+	}
+	return n
 }
 
 func (t *treeConc) choice(n int) int {
